@@ -1,6 +1,7 @@
 """C19 - queries never change a structure; clear() returns it to its initial state."""
 import io
 import os
+from collections import Counter
 from pathlib import Path
 
 from hypothesis import strategies as st
@@ -218,6 +219,11 @@ def _cms_target(ctx, d, case):
     recv = CountMinSketch(width=d.w, depth=d.d, hash_function=hf)
     for i in case["other"]:
         recv.add(pool[i % len(pool)], 2)
+    if d.cls == "cms" and case.get("qt") in ("mean", "mean-min") and (case["qt"] == "mean" or d.w >= 2):
+        # the (settable) query type is part of the observable state: queries must leave it alone as well
+        o.query_type = case["qt"]
+        recv.query_type = case["qt"]
+        ctx.feat("cms_query_type_" + case["qt"])
 
     def exp_fo(k, dep):
         b = io.BytesIO()
@@ -242,7 +248,9 @@ def _cms_target(ctx, d, case):
             return HeavyHitters(num_hitters=case["hitters"], **kw)
         if d.cls == "st":
             return StreamThreshold(threshold=case["threshold"], **kw)
-        return CountMinSketch(**kw)
+        f = CountMinSketch(**kw)
+        f.query_type = o.query_type  # a setting of the structure, i.e. one of "the same parameters": clear() keeps it
+        return f
 
     def view(x):
         v = [bytes(x), x.elements_added, x.width, x.depth, x.query_type, [x.check(k) for k in pool]]
@@ -257,6 +265,86 @@ def _cms_target(ctx, d, case):
 
     t.clear = (fresh, view, follow, lambda x: None)
     return t
+
+
+def _blind_twin(ctx, d, case):
+    _blind_twin_run(ctx, d, case, False)
+    if d.cls != "cms":
+        for j in range(8):  # all amounts 1, eight re-labellings of the keys: estimates tie, which is where iteration order decides
+            _blind_twin_run(ctx, d, case, True, j)
+
+
+def _blind_twin_run(ctx, d, case, unit, variant=0):
+    """Reads must not influence the FUTURE either: two sketches get the same updates; X is queried in every possible way after each
+    update (tables, estimates, strings, exports), Y is never looked at. At the end, and after further heavier keys arrive, both must
+    be observably the same (what a read re-ordered or cached inside X shows up as a different eviction / entry later)."""
+    from probables import CountMinSketch, HeavyHitters, StreamThreshold
+
+    pool = d.pool
+    kw = {"hash_function": d.hf}
+    if "conf" in case:
+        kw.update(confidence=case["conf"], error_rate=case["err"])
+    else:
+        kw.update(width=case["w"], depth=case["d"])
+
+    def mk():
+        if d.cls == "hh":
+            return HeavyHitters(num_hitters=case["hitters"], **kw)
+        if d.cls == "st":
+            return StreamThreshold(threshold=case["threshold"], **kw)
+        return CountMinSketch(**kw)
+
+    X, Y = mk(), mk()
+    out = Counter()
+
+    def reads(o, k):
+        o.check(k)
+        _ = k in o
+        str(o)
+        bytes(o)
+        o.hashes(k)
+        if d.cls == "hh":
+            _ = o.heavy_hitters
+            list(o.heavy_hitters.items())
+        if d.cls == "st":
+            _ = o.meets_threshold
+        _ = o.elements_added
+
+    ups = []
+    if unit:
+        # few keys more than the table has room for, all amounts 1: keys overtake each other, tie, and get evicted all the time
+        pool = pool[: max(2, min(len(pool), case.get("hitters", 2) + 2))]
+    for op in case["ops"]:
+        if op[0] == "add":
+            ups.append((pool[(op[1] * (variant + 1) + (op[2] if variant else 0) + variant) % len(pool)], 1 if unit else min(op[2], 1000)))
+        elif op[0] == "remove" and d.cls != "hh":
+            k = pool[op[1] % len(pool)]
+            if out[k] > 0:
+                ups.append((k, -1))
+                out[k] -= 1
+                continue
+        if op[0] == "add":
+            out[pool[op[1] % len(pool)]] += min(op[2], 1000)
+    ups += [(pool[ki % len(pool)], 1 if unit else n + 1) for ki, n, rem in case["follow"]]
+    for k, n in ups:
+        for o in (X, Y):
+            if n >= 0:
+                o.add(k, n)
+            else:
+                o.remove(k, 1)
+        reads(X, k)
+
+    def view(o):
+        v = [bytes(o), o.elements_added, o.query_type]
+        if d.cls == "hh":
+            v.append(dict(o.heavy_hitters))
+        if d.cls == "st":
+            v.append(dict(o.meets_threshold))
+        return v
+    a, b = view(X), view(Y)
+    ctx.check("C19.readonly", a == b, lambda: f"{d.cls}: a sketch that was queried after every update and one that was never looked at "
+                                              f"differ after the same {len(ups)} updates: {a[2:]} vs {b[2:]}")
+    ctx.feat("blind_twin_%s" % d.cls)
 
 
 def _cuckoo_target(ctx, d, case):
@@ -389,9 +477,24 @@ def run_case(case, ctx):
         after = t.snap()
         ctx.check("C19.readonly", before == after, lambda: f"{t.kind}: state changed by looking every pool key up (check / in): "
                                                            f"{[i for i, (a, b) in enumerate(zip(before, after)) if a != b]}")
+        # look-ups that FAIL (a key no hashing strategy can digest): which exception is raised is not specified, but a failed query is
+        # still a query - nothing may have changed, including settings such as the query type
+        before = t.snap()
+        for name, fn in t.reads:
+            if name in ("check", "in"):
+                try:
+                    fn(None, 1)
+                    ctx.feat("undigestible_key_accepted")
+                except Exception:  # noqa
+                    ctx.feat("failed_lookup_%s" % name)
+        after = t.snap()
+        ctx.check("C19.readonly", before == after, lambda: f"{t.kind}: state changed by a look-up that raised (key None): "
+                                                           f"{[i for i, (a, b) in enumerate(zip(before, after)) if a != b]}")
         for name in used:
             ctx.feat("read_%s_%s" % (t.kind, name))
         nt = t.nonempty and len(used) >= 3 and absent_query
+        if t.kind in ("cms", "hh", "st"):
+            _blind_twin(ctx, d, case)
         if t.clear is not None:
             fresh, view, follow, fin = t.clear
             o = t.obj
